@@ -4,15 +4,16 @@
 # /verif/seeded/RESULTS2.json + RESULTS2.md (merged with earlier entries).
 import json, os, re, shutil, subprocess, sys, glob
 V = '/verif'
+ROUND = os.environ.get('ROUND', '2')
 res = {}
 if os.path.exists(f'{V}/seeded/RESULTS2.json'):
     res = {r['dir']: r for r in json.load(open(f'{V}/seeded/RESULTS2.json'))}
 for pid in sys.argv[1:]:
-    for k in sorted(os.listdir(f'/tmp/seed2_{pid}')) if os.path.isdir(f'/tmp/seed2_{pid}') else []:
-        src = f'/tmp/seed2_{pid}/{k}'
+    for k in sorted(os.listdir(f'/tmp/seed{ROUND}_{pid}')) if os.path.isdir(f'/tmp/seed{ROUND}_{pid}') else []:
+        src = f'/tmp/seed{ROUND}_{pid}/{k}'
         if not os.path.exists(f'{src}/patch.diff') or k.startswith('_'):
             continue
-        name = f'r2-{pid}-{k}'
+        name = f'r{ROUND}-{pid}-{k}'
         out = f'{V}/seeded/{name}'
         os.makedirs(out, exist_ok=True)
         for f in ['patch.diff', 'notes.md'] + [os.path.basename(x) for x in glob.glob(f'{src}/zz_demo*.go')]:
@@ -28,7 +29,7 @@ for pid in sys.argv[1:]:
         o = r.stdout + r.stderr
         st = 'detected' if o.strip() and 'detected' in o.splitlines()[-1] else 'missed'
         meta = {'dir': name, 'property': pid, 'change': title, 'files': files,
-                'origin': 'second round: sub-agent given only the property text and a scratch worktree of the repaired tree with the contract files removed; it confirmed suite passes with the patch, demo fails with it and passes without',
+                'origin': f'round {ROUND}: sub-agent given only the property text and a scratch worktree of the repaired tree with the contract files removed; it confirmed suite passes with the patch, demo fails with it and passes without',
                 'needs_to_manifest': needs, 'patch_applies_to': 'repaired tree at the time of the round (git apply / patch -p1)',
                 'demonstration': 'zz_demo*_test.go (see notes.md for package directory and command)', 'what_i_ran': cmd,
                 'result': st, 'detected_by_obligations': sorted(set(re.findall(r'obligation="([^"]+)"', o)))}
